@@ -47,7 +47,7 @@ UNSAFE = set(map(ord, r'-|.^?*+{}()[]\\'))
 
 TIERS = {
     'quick': dict(
-        abstract=[dict(name='M8', M=8, ctor=2, maxT=8, windows=[1, 65, 0xD7FD, MAXU1 + 1 - 8])],
+        abstract=[dict(name='M7', M=7, ctor=2, maxT=7, windows=[1, 65, 0xD7FD, MAXU1 + 1 - 7])],
         unique_M=5,
         closure_depth=2,
         cc=dict(M=6, W=[65, MAXU1 + 1 - 6], depth=4, max_states=6000),
@@ -417,6 +417,10 @@ def us_worker(job):
             forms = [PRIMARY[action]] if reduced else FORMS[action]
             edge_ok = True
             for form in forms:
+                if form == 'difference' and sum(win.width(p) for p in args[0] & win.wide) > 4096 \
+                        and (hash((W, sid, tuple(sorted(args[0])))) + seed) % 1499:
+                    stats['skipped_costly'] += 1      # difference(UnicodeSubset) walks every int of the argument
+                    continue
                 try:
                     u = US(list(src_real))
                     r, note = apply_us(US, u, win, action, args, form, canon_of, seed + ei)
